@@ -63,6 +63,10 @@ def direct(case, obs):
                 if saved and "discarded" in capture_failures(run, ob):
                     fails.append(("saved-after-discard", "run %d: the program discarded / a capture failed, yet a recording "
                                   "was saved" % i))
+                if saved:
+                    why = missing_captures(run, ob, saved[0])
+                    if why:
+                        fails.append(("saved-without-capture", "run %d: %s" % (i, why)))
                 finals[created - 1] = (run, saved[0] if saved else None)
         else:
             src = finals.get(run["target"])
@@ -79,11 +83,46 @@ def direct(case, obs):
 
 
 def capture_failures(run, ob):
-    """What the harness can tell without any model: did the executed program call discard_recording() while a
-    recording was active (explicit 'discard' statements that were reached are visible in the trace only indirectly, so
-    this is conservative: an abort event followed by a save is already caught above)."""
+    """Model-free: did the executed program reach a discard_recording() statement while a recording was active
+    (journalled by the driver's interpreter), or did the cassette see an abort?"""
     kinds = [c["c"] for c in ob["cass"]]
-    return {"discarded"} if "abort" in kinds else set()
+    if "abort" in kinds or any(j["j"] == "discard" and j["active"] for j in ob.get("journal", [])):
+        return {"discarded"}
+    return set()
+
+
+def outermost_completed(trace):
+    """(kind, alias) of every outermost intercepted call that returned or raised an ordinary exception."""
+    out, depth, stack = [], 0, []
+    for e in trace:
+        if e["e"] == "begin":
+            stack.append(e)
+        elif e["e"] == "call":
+            b = stack.pop()
+            if not stack and e["o"]["o"] != "int":
+                out.append((b.get("kind"), b["alias"]))
+    return out
+
+
+def missing_captures(run, ob, saved):
+    """For a saved recording of a program that never switches recording off: every outermost completed output call must
+    have its '.output' and '.result' entries, and completed input calls must have left at least one 'input:' entry."""
+    if rd.has_stmt(run["op"]["body"], ("enable",)):
+        return None
+    calls = outermost_completed(ob["trace"])
+    keys = [k for k, _ in saved["data"]]
+    nout = {}
+    for kind, al in calls:
+        if kind == "out":
+            nout[al] = nout.get(al, 0) + 1
+    for al, n in nout.items():
+        for suffix in (".output", ".result"):
+            have = sum(1 for k in keys if k.startswith("output: %s #" % al) and k.endswith(suffix))
+            if have < n:
+                return "output alias %r was called %d times, the saved recording holds %d '%s' entries" % (al, n, have, suffix)
+    if any(kind == "in" for kind, _ in calls) and not any(k.startswith("input: ") for k in keys):
+        return "intercepted inputs completed but the saved recording holds no input entry"
+    return None
 
 
 MANIFEST = dict(
